@@ -75,6 +75,21 @@ def gen(S, tier):
     for k in vs[1:]:
         kinds.remove(k)
     w.shuffle(kinds)
+    help_line = "complete"
+    if "help" in kinds and not use_tail and plain_target:
+        # asking for help is what one does with a line that is NOT yet a valid invocation: required
+        # arguments missing, or more arguments than the command declares
+        help_line = w.weighted([("complete", 5), ("bare", 3), ("surplus", 2)])
+        if help_line == "bare":
+            tail = []
+        elif help_line == "surplus":
+            # every declared argument is filled first, so the extra tokens are surplus and nothing else
+            # (a token that lands in a typed argument and cannot be converted is another matter)
+            tail, exp_args, exp_opts = apptree.gen_line(w, chain, fill_all=True)
+            if any(a[0] == "rest" for a in cmd["args"]):
+                help_line = "complete"
+            else:
+                tail = list(tail) + ["zz%d" % i for i in range(w.randint(1, 3))]
     base = list(path) + list(tail)
     switches = []
     for k in kinds:
@@ -92,7 +107,7 @@ def gen(S, tier):
         dd_tail = [w.pick(sum(SWITCHES.values(), [])) for _ in range(w.randint(1, 3))]
     return {
         "app": spec, "path": path, "tail": tail, "exp_args": exp_args, "exp_opts": exp_opts, "hid": cmd["hid"],
-        "switches": switches, "dd_tail": dd_tail, "use_dd": use_tail, "plain_target": plain_target,
+        "switches": switches, "dd_tail": dd_tail, "use_dd": use_tail, "plain_target": plain_target, "help_line": help_line,
         "tty_out": c.chance(0.5), "tty_err": c.chance(0.5),
         "raises": f.chance(0.25), "question_default": c.chance(0.5),
         "input": f.pick([[], [], ["y\n"], ["n\n"], ["\n"]]),
@@ -269,6 +284,8 @@ def _run(sc):
     hids = [r["hid"] for r in inv]
     if has("help"):
         res.probe("help_after_path")
+        if sc.get("help_line", "complete") != "complete":
+            res.probe("help_on_incomplete_or_surplus_line")
         if status != 0:
             res.violate("help", "status", "help run returned %r (tokens %r)" % (status, tokens))
         if hids:
